@@ -39,7 +39,7 @@ def cli_image(rng, keys=None, n=None):
         elif filt:
             data = data.hex().encode() + b">"
         ws2 = rng.choice(c16.WS)
-        if c16.data_in_quantifier(data, ws2) and b"EI\x0b" not in data + ws2 + b"EI":
+        if c16.data_in_quantifier(data, ws2):      # EI<VT> inside the data is a look-alike like any other (C16-F1 repaired)
             break
     sep = lambda: rng.choice([b" ", b"\n", b"\r", b"\r\n", b"  "])
     return (b"BI" + sep() + b"".join(b"/" + k.encode() + b" " + v.encode() + sep() for k, v in keys) + b"ID" + rng.choice(c16.WS) + data + ws2 + b"EI")
@@ -606,8 +606,10 @@ def check_extern(chk, name, desc, pdesc, ps, os_, ores, sd, min_bytes, got, whol
         return False
 
     def fail(why, sig="C16:cli:externalize", **kw):
-        if any(b"EI\x0b" in x for x in ps):
-            sig = "C16:cli:ei-vt"          # the image was ended at EI<VT> (finding C16-F1)
+        if sig != "C16:cli:externalize":
+            pass                           # already classified
+        elif any(b"EI\x0b" in x for x in ps):
+            sig = "C16:cli:ei-vt"          # the image was ended at EI<VT> (finding C16-F1, repaired)
         elif whole != "invalid" and d0_after_image():
             sig = "C16:cli:findei-d0"      # the true EI was rejected because d0/d1 follows (finding C16-F6)
         d2 = {k: v for k, v in desc.items() if k != "_path"}
